@@ -14,7 +14,7 @@ dirty state they would leave and the handlers they would reach.
 from .engine import flat_events
 from .events import construct_of
 from .repo import AnalysisError
-from .terms import strip_wrappers, mentions, show, is_const, walk
+from .terms import strip_wrappers, mentions, show, is_const, walk, plain
 
 # logical uniqueness (not declared in the schema; one line of reason each)
 LOGICAL_KEYS = {
@@ -623,6 +623,15 @@ class E3(object):
             k = e["k"]
             if k == "sql" and e["stmt"].kind == "select":
                 selects[e["site"]] = e
+            elif k in ("reg_set", "reg_get") and e.get("key") is not None:
+                selects[("regkey", e["reg"], plain(e["key"]))] = e
+            elif k == "reg_del" and (e.get("how") in ("del", "remove") or
+                                     (e.get("how") == "pop" and e.get("nargs") == 1)) and \
+                    e.get("key") is not None and e["reg"][0] == "reg":
+                if id(e) in self._done_idx:
+                    continue
+                self._done_idx.add(id(e))
+                self._regdel_one(path, e, selects)
             elif k == "loop":
                 if id(e) in self._done_idx:
                     continue
@@ -640,6 +649,31 @@ class E3(object):
                     continue
                 self._done_idx.add(id(e))
                 self._index_one(path, e, selects)
+
+    def _regdel_one(self, path, e, selects):
+        """del R[k] / R.remove(k) raises when k is absent: the key must be known
+        to be present (stored or fetched on the path, or tested `k in R`)"""
+        reg, key = e["reg"], plain(e["key"])
+        self.counts["index"] += 1
+        construct = "%s: del %s[%s]" % (e["func"], reg[2], _name_of(key))
+        present = ("regkey", reg, key) in selects
+        absent = False
+        for t, v in pc_truth(e["pc"]).items():
+            if t[0] == "cmp" and t[1] == "in" and plain(t[2]) == key and t[3] == reg:
+                if v is True:
+                    present = True
+                elif v is False:
+                    absent = True
+        if ("regkey", reg, key) in selects:
+            absent = False   # stored / fetched after any earlier absence test
+        if present and not absent:
+            self.add("index", construct, e, True, "the key is known to be in the registry "
+                     "on this path", path)
+            return
+        self.add("index", construct, e, False,
+                 "the key is %s: the deletion raises KeyError" % (
+                     "absent on this path (the object was not taken from the registry)"
+                     if absent else "not known to be in the registry"), path, "KeyError")
 
     def _index_one(self, path, e, selects):
         if True:
